@@ -16,4 +16,9 @@ def run(ctx, which, pid):
         n += len(obs)
     ctx.assume("1-D arrays stand for the last axis of n-D arrays: the kernels index leading axes only through `...` (ellipsis parametricity, DESIGN §2.3(4))")
     ctx.assume("RUN_MEMBER (for a sorted code array the runs between flagged starts are exactly the groups' members, in original order after a stable sort) is used as the reading of the kernel postconditions; it is not mechanised")
+    from ..pyvc import conformance
+    from . import finalize_proofs
+
+    finalize_proofs._patch()
+    conformance.add_to_ctx(ctx, ["argsort", "nonzero", "reduceat"])
     return f"flox-engine kernels: {n} obligations from {', '.join(which)}."
